@@ -11,6 +11,7 @@ CONSTANTS
   FixInvalidCorrected = FALSE
   FixValidToInvalid = FALSE
   AvoidWindows = FALSE
+  ProcRewritesName = FALSE
 VIEW vars
 ACTION_CONSTRAINT EmitEdge
 CHECK_DEADLOCK FALSE
